@@ -11,11 +11,13 @@ import YaegiVerif.Generated.C07
               (fnHost) (hostIfaceVar INTERP) (hostIfaceNil) (hostDyn) (concreteDyn INTERP METHODS) (plain CLASS CLEAN)
       FORM  = const | other      (constants are converted to the parameter type callBin picks)
       PKIND = concrete | empty | host
-      ctx   = (assign B0 B1 …) | (ret POS) | (deflt)
+      ctx   = (assign B0 B1 …) | (ret POS) | (deflt) | (cond)
    pack PATH ISVARIADIC ELLIPSIS DEFERRED NFIXED NARGS   → y=<ok|bad:…> g=ok
       PATH = bin (callBin) | fv (`call`, the function value is a host function): what the callee's parameters receive
       against Go's packing (nil variadic slice without variadic arguments, the slice itself with `...`, also when deferred)
    fvcall ISVARIADIC ELLIPSIS DEFERRED NFIXED (kinds K0 K1 …)   → y=<ok|bad:…> g=ok   (`call` reaching a host function: packing + argument preparation)
+   branch USE (results B0 B1 …)    → (USE = reread: left operand of && / ||; branch: if / for / ! / right operand)
+                                     y=<ok|bad:stale-branch-result> g=ok   (a host call as a condition executed repeatedly in one frame)
    hostrecv                        → y=<ok|bad:host-receiver-late> g=ok   (method value of a host value: receiver bound at evaluation)
    recvbind                        → y=<ok|bad:late-receiver> g=ok   (method wrapper: receiver read when the wrapper is made)
    ifacerecv                       → y=<ok|bad:receiver-bound-at-conversion|bad:receiver-follows-variable> g=ok
@@ -126,6 +128,7 @@ def parseCtx (s : Sexp) : Option Ctx :=
   | .list (.atom "assign" :: bs) => (bs.mapM Sexp.bool?).map Ctx.assignX
   | .list [.atom "ret", p] => p.nat?.map Ctx.ret
   | .list [.atom "deflt"] => some (.deflt 5)
+  | .list [.atom "cond"] => some (.cond 5)
   | _ => none
 
 structure ArgIn where
@@ -196,6 +199,14 @@ def handleFvCall (isVariadic ellipsis deferred : Bool) (nFixed : Nat) (kinds : L
   match bad with
   | [] => "y=ok g=ok"
   | b :: _ => s!"y=bad:{b} g=ok"
+
+/-- a host call used as a condition, executed once per element of `rs` in one frame: what the enclosing operation reads after
+    each call, with the regenerated fact -/
+def handleBranch (reread : Bool) (rs : List Bool) : String :=
+  let ctxOk := routeY G (.cond 5) 1 == routeSpec (.cond 5) 1
+  if !ctxOk then "y=bad:result-routing g=ok"
+  else if condSeenY G.branchStore (if reread then .rereadsCell else .branchOnly) rs == rs then "y=ok g=ok"
+  else "y=bad:stale-branch-result g=ok"
 
 /-- `mv := c.M; c = other; mv()` on a value of a host type -/
 def handleHostRecv : String :=
@@ -305,6 +316,10 @@ def handle (args : List Sexp) : String :=
     (match iv.bool?, el.bool?, df.bool?, nf.nat?, ks.mapM Sexp.atom? with
      | some iv, some el, some df, some nf, some ks => handleFvCall iv el df nf ks
      | _, _, _, _, _ => "bad-op")
+  | [.atom "branch", .atom use, .list (.atom "results" :: rs)] =>
+    (match rs.mapM Sexp.bool? with
+     | some rs => handleBranch (use == "reread") rs
+     | none => "bad-op")
   | [.atom "hostrecv"] => handleHostRecv
   | [.atom "recvbind"] => handleRecvBind
   | [.atom "ifacerecv"] => handleIfaceRecv
